@@ -223,6 +223,10 @@ func judgeHinted(entry string, ek entryKind, d deploy, query []byte, reply []byt
 
 	// --- unsupported EDNS version gets BADVERS
 	if v.decodable && v.opcode() == 0 && v.qd == 1 && v.hasOPT && v.ver != 0 && (ek.proto == "udp" || ek.proto == "tcp") {
+		if rm.Rcode == dns.RcodeBadCookie {
+			// label only: the rate limiter's cookie check answered before edns saw the version
+			return fail("reply/badcookie/ahead-of-version-check", fmt.Sprintf("entry=%s ver=%d", e, v.ver))
+		}
 		if rm.Rcode != dns.RcodeBadVers {
 			return fail(e+"/verdict/version-not-badvers", fmt.Sprintf("ver=%d rcode=%d", v.ver, rm.Rcode))
 		}
@@ -245,6 +249,9 @@ func judgeHinted(entry string, ek entryKind, d deploy, query []byte, reply []byt
 		}
 	}
 	if ropt != nil && !v.hasOPT {
+		if up.mode == 'P' {
+			return fail("reply/panic-undecoded-servfail/opt-unsolicited", "entry="+e)
+		}
 		if up.mode == 'p' {
 			// label only: the scripted handler panicked, the reply is the recovery middleware's
 			return fail("reply/panic-servfail/opt-unsolicited", "entry="+e)
@@ -300,14 +307,24 @@ func judgeHinted(entry string, ek entryKind, d deploy, query []byte, reply []byt
 			}
 			switch o.code {
 			case optECS:
+				if up.mode == 'P' {
+					return fail("reply/panic-undecoded-servfail/client-ecs-reflected", fmt.Sprintf("entry=%s %x", e, o.data))
+				}
 				if up.mode == 'p' {
 					return fail("reply/panic-servfail/client-ecs-reflected", fmt.Sprintf("entry=%s %x", e, o.data))
+				}
+				if rm.Rcode == dns.RcodeBadCookie {
+					// label only: the rate limiter's BADCOOKIE, written ahead of the edns handler
+					return fail("reply/badcookie/client-options-reflected", fmt.Sprintf("entry=%s ecs %x", e, o.data))
 				}
 				if rm.Rcode == dns.RcodeBadVers && v.hasOPT && v.ver != 0 {
 					return fail("reply/badvers/client-ecs-reflected", fmt.Sprintf("entry=%s %x", e, o.data))
 				}
 				return fail(e+"/option/ecs-reflected", fmt.Sprintf("%x", o.data))
 			case optKeepalive:
+				if rm.Rcode == dns.RcodeBadCookie && (ek.proto != "tcp" || !v.hasKA) {
+					return fail("reply/badcookie/client-options-reflected", fmt.Sprintf("entry=%s keepalive", e))
+				}
 				if ek.proto != "tcp" || !v.hasKA {
 					return fail(e+"/option/keepalive-not-negotiated", fmt.Sprintf("proto=%s client-sent=%v data=%x", ek.proto, v.hasKA, o.data))
 				}
@@ -326,6 +343,9 @@ func judgeHinted(entry string, ek entryKind, d deploy, query []byte, reply []byt
 				}
 			case optNSID:
 				if !v.wantsNSID || d.nsid == nil || !bytes.Equal(o.data, d.nsid) {
+					if rm.Rcode == dns.RcodeBadCookie {
+						return fail("reply/badcookie/client-options-reflected", fmt.Sprintf("entry=%s nsid request echoed", e))
+					}
 					if fromUpstream(o) {
 						return fail(passThrough, fmt.Sprintf("entry=%s upstream nsid %x", e, o.data))
 					}
@@ -334,6 +354,9 @@ func judgeHinted(entry string, ek entryKind, d deploy, query []byte, reply []byt
 			case optEDE:
 				// the server's own diagnostics
 			default:
+				if rm.Rcode == dns.RcodeBadCookie {
+					return fail("reply/badcookie/client-options-reflected", fmt.Sprintf("entry=%s code=%d", e, o.code))
+				}
 				if fromUpstream(o) {
 					return fail(passThrough, fmt.Sprintf("entry=%s code=%d", e, o.code))
 				}
